@@ -477,6 +477,12 @@ class SymbolKindFinder:
             for phase_name, ident, kind in forced_kinds:
                 result.set(phase_name, ident, kind=kind)
 
+        for phase_name, phase in zip(names, phases):
+            for stmt in phase:
+                if isinstance(stmt, lang.Assign):
+                    for ident, _, _ in stmt.loops:
+                        result.set(phase_name, ident, kind=Integer())
+
         def make_kim(phase_name, check):
             return KindInferenceMapper(
                     result.global_table,
